@@ -27,6 +27,9 @@ import Verif.Model.Common
     * authority/provisioner/nebula.go `(*Nebula).AuthorizeSign`, `nebulaSANsValidator.Valid`,
       `validateNebulaTokenSANs` (since 62bb26c)      -> `authorize` (.nebula), `nebValid`, `tokenAuthorized`
     * authority/provisioner/k8sSA.go `(*K8sSA).AuthorizeSign`           -> `authorize` (.k8ssa)
+    * authority/provisioner/aws.go `(*AWS).AuthorizeSign` + x509util.DefaultIIDLeafTemplate
+                                                                        -> `authorize` (.aws dcs), `awsValid`, `Tpl.iid`
+    * api/sign.go `Sign`, `SignRequest.Validate` (served through api.Route)   -> `httpSign`, `Res.status`
     * cas/stepcas/stepcas.go `createCertificate` (RA mode: token for the issuing CA from the template)
                                                                         -> `raToken`, `raRequest`
     * authority/tls.go `signX509`: CSR signature, request validators in option order, template,
@@ -123,6 +126,7 @@ inductive Prov where
   | oidc (admin : Bool)
   | nebula
   | k8ssa
+  | aws (disableCustomSANs : Bool)   -- instance identity document; `nebName` / `nebIPs` hold its internal DNS name and private IP
   | acme | scep   -- no token: the ACME / SCEP layer authenticates the client and supplies the names
   deriving Repr, DecidableEq
 
@@ -131,9 +135,21 @@ structure BoolClaims where
   disableRenewal : Option Bool
   disableExt : Option Bool          -- disableSmallstepExtensions
   allowAfterExpiry : Option Bool
+  /-- the claims went through the admin-database form (authority/provisioners.go
+      `claimsToLinkedca` then `claimsToCertificates`: provisioners kept in the admin database,
+      i.e. every provisioner of an authority with `enableAdmin`) -/
+  adminForm : Bool := false
   deriving Repr, DecidableEq
 
-def noClaims : BoolClaims := ⟨none, none, none⟩
+def noClaims : BoolClaims := ⟨none, none, none, false⟩
+
+/-- `claimsToLinkedca` / `claimsToCertificates`: the linkedca form has plain booleans, so a claims
+    object that exists comes back with all three booleans set, the unset ones to the defaults
+    (false); a missing claims object (all unset here) stays missing -/
+def BoolClaims.inForce (c : BoolClaims) : BoolClaims :=
+  if c.adminForm ∧ (c.disableRenewal.isSome ∨ c.disableExt.isSome ∨ c.allowAfterExpiry.isSome) then
+    ⟨some (c.disableRenewal.getD false), some (c.disableExt.getD false), some (c.allowAfterExpiry.getD false), true⟩
+  else c
 
 /-- one boolean claim through the two `Claimer`s: the provisioner's value if set
     (`Claimer.IsDisable…`: `c.claims.X` else `c.global.X`), else the authority-level value, which
@@ -156,7 +172,7 @@ structure Cfg where
 
 /-- `provisionerExtensionOption.WithControllerOptions`: `Disabled = Claimer.IsDisableSmallstepExtensions()`;
     the other boolean claims play no part -/
-def Cfg.extDisabled (cfg : Cfg) : Bool := effClaim cfg.provClaims.disableExt cfg.authClaims.disableExt
+def Cfg.extDisabled (cfg : Cfg) : Bool := effClaim cfg.provClaims.inForce.disableExt cfg.authClaims.disableExt
 
 /-- user supplied `templateData`: the `extensions` member as the custom template would render
     it, and everything else as an opaque value -/
@@ -177,6 +193,7 @@ structure Data where
 
 inductive Tpl where
   | leaf | admin | custom
+  | iid      -- x509util.DefaultIIDLeafTemplate: CN from the CSR; names from the data when it has any, else the CSR's
   deriving Repr, DecidableEq
 
 inductive CnRule where
@@ -193,6 +210,7 @@ structure Plan where
   sans : Option (List San)   -- defaultSANsValidator, absent for OIDC
   cnf : Cnf
   neb : Option (List San × List Str) := none   -- nebulaSANsValidator{Name, IPs}
+  aws : Option (List Str × List Str) := none   -- AWS disableCustomSANs: (allowed DNS names, the private IP)
   deriving Repr, DecidableEq
 
 /-- `if len(claims.SANs) == 0 { claims.SANs = []string{claims.Subject} }` -/
@@ -236,6 +254,16 @@ def authorize (cfg : Cfg) (t : Token) : Plan :=
     { data := ⟨t.sub.raw, [], none⟩
       tpl := if cfg.hasTemplate then .custom else .admin
       cnRule := .none, sans := none, cnf := .absent }
+  | .aws dcs =>
+    -- aws.go `AuthorizeSign`: common name = token subject (instance id, private IP or internal name);
+    -- disableCustomSANs: template names = [internal DNS name, private IP] and the CSR may list only
+    -- those (dnsNamesSubsetValidator, ipAddressesValidator, no e-mail, no URI); otherwise the
+    -- names are the CSR's ("no way to trust them other than TOFU")
+    let own : List San := t.nebName.toList ++ t.nebIPs.map fun ip => ⟨.ip, ip, ip⟩
+    { data := ⟨t.sub.raw, if dcs then createSANs own else [], none⟩
+      tpl := if cfg.hasTemplate then .custom else .iid
+      cnRule := .exactly t.sub.raw, sans := none, cnf := .absent
+      aws := if dcs then some (ofKind .dns t.nebName.toList, t.nebIPs) else none }
   | .acme | .scep =>
     -- `AuthorizeSign(ctx, "")` carries no name validator; the protocol layer (acme/order.go
     -- `Finalize`, scep/authority.go `SignCSR`) builds the template data from the names it validated
@@ -279,10 +307,17 @@ def nebValid (name : List San) (ips : List Str) (c : CSR) : Bool :=
   (c.uris.isEmpty || setEq (ofKind .uri name) c.uris) &&
   c.ips.all fun ip => (ofKind .ip name ++ ips).contains ip
 
+/-- AWS with disableCustomSANs: `dnsNamesSubsetValidator` (every CSR DNS name allowed),
+    `ipAddressesValidator` (set-equal or absent), `emailAddressesValidator(nil)` and
+    `urisValidator(nil)` (none may be listed) -/
+def awsValid (dns ips : List Str) (c : CSR) : Bool :=
+  c.dns.all (fun x => dns.contains x) && kindValid ips c.ips && kindValid [] c.emails && kindValid [] c.uris
+
 def reqValid (p : Plan) (c : CSR) : Bool :=
   fpValid p.cnf && cnValid p.cnRule c && c.keyOK &&
   (match p.sans with | none => true | some s => sansValid s c) &&
-  (match p.neb with | none => true | some (n, ips) => nebValid n ips c)
+  (match p.neb with | none => true | some (n, ips) => nebValid n ips c) &&
+  (match p.aws with | none => true | some (d, ips) => awsValid d ips c)
 
 /-! ### template -/
 
@@ -320,6 +355,7 @@ def applyTemplate (p : Plan) (c : CSR) (user : Option UserData) : Cert :=
   | .leaf => applyLeaf { p.data with user := user } c
   | .admin => applyAdmin c
   | .custom => applyCustom { p.data with user := user } c
+  | .iid => if p.data.sans.isEmpty then applyAdmin c else { applyLeaf { p.data with user := user } c with cn := c.cn }
 
 /-! ### provisioner extension -/
 
@@ -375,6 +411,7 @@ def templateFails (p : Plan) (user : Option UserData) : Bool :=
 def encOK (p : Plan) (enc : Enc) : Bool :=
   match p.tpl with
   | .admin => enc.csr
+  | .iid => if p.data.sans.isEmpty then enc.csr else enc.tok
   | _ => enc.tok
 
 def sign (cfg : Cfg) (t : Token) (c : CSR) (ud : Option UserData) (enc : Enc) : Res :=
@@ -407,6 +444,21 @@ def tokenAuthorized (cfg : Cfg) (t : Token) : Bool :=
 /-- `Authority.Authorize` followed by `Authority.Sign`, as the /1.0/sign handler runs them -/
 def request (cfg : Cfg) (t : Token) (c : CSR) (ud : Option UserData) (enc : Enc) : Res :=
   if tokenAuthorized cfg t = false then .unauthorized 403 else sign cfg t c ud enc
+
+/-! ### POST /1.0/sign -/
+
+/-- api/sign.go `Sign`: `SignRequest.Validate` checks the CSR's signature (400) before the token
+    is looked at; `Authorize` errors are rendered through `errs.UnauthorizedErr`, signing errors
+    through `errs.ForbiddenErr`, both of which keep the status the authority chose. -/
+def httpSign (cfg : Cfg) (t : Token) (c : CSR) (ud : Option UserData) (enc : Enc) : Res :=
+  if c.sigOK = false then .refused 400 else request cfg t c ud enc
+
+/-- the HTTP status of an outcome (201 = a certificate in the body) -/
+def Res.status : Res → Nat
+  | .unauthorized st => st
+  | .refused st => st
+  | .error => 500
+  | .issued _ => 201
 
 /-! ### registration-authority mode (cas/stepcas) -/
 
@@ -502,12 +554,12 @@ def Phase.marker : Phase → List Tok
 
 /-- elements of the `[]SignOption` literal an `AuthorizeSign` returns -/
 inductive Opt where
-  | self | oidcSelf | pSelf | sSelf | nebulaSans | forceCN | pubKeyMinLen | templateOptions | provExt | defaultDuration | limitDuration
+  | self | oidcSelf | pSelf | sSelf | soPrefix | nebulaSans | forceCN | pubKeyMinLen | templateOptions | provExt | defaultDuration | limitDuration
   | fingerprint | cnSlice | cnExact | pubKey | sans | validity | namePolicy | webhook
   deriving Repr, DecidableEq
 
 def Opt.str : Opt → String
-  | .self => "self" | .oidcSelf => "o" | .pSelf => "p" | .sSelf => "s"
+  | .self => "self" | .oidcSelf => "o" | .pSelf => "p" | .sSelf => "s" | .soPrefix => "+so"
   | .nebulaSans => "nebulaSANsValidator" | .forceCN => "newForceCNOption"
   | .pubKeyMinLen => "newPublicKeyMinimumLengthValidator"
   | .templateOptions => "templateOptions"
@@ -529,6 +581,8 @@ def optionSource : Prov → List Opt
   | .nebula => [.pSelf, .templateOptions, .provExt, .limitDuration, .cnExact, .nebulaSans, .pubKey, .validity,
                 .namePolicy, .webhook]
   | .k8ssa => [.pSelf, .templateOptions, .provExt, .defaultDuration, .pubKey, .validity, .namePolicy, .webhook]
+  | .aws _ => [.soPrefix, .pSelf, .templateOptions, .provExt, .defaultDuration, .pubKey, .cnExact, .validity,
+               .namePolicy, .webhook]
   | .acme => [.pSelf, .provExt, .forceCN, .defaultDuration, .pubKey, .validity, .namePolicy, .webhook]
   | .scep => [.sSelf, .provExt, .forceCN, .defaultDuration, .pubKeyMinLen, .validity, .namePolicy, .webhook]
 
